@@ -178,6 +178,7 @@ func (w *Writer) Write(s seq.Sequence) (n int, err error) {
 	if err != nil {
 		return n, err
 	}
+	start := s.Start()
 	for i := 0; i < s.Len(); i++ {
 		if i%w.Width == 0 {
 			_n, err = w.w.Write(prefix)
@@ -185,7 +186,7 @@ func (w *Writer) Write(s seq.Sequence) (n int, err error) {
 				return n, err
 			}
 		}
-		_n, err = w.w.Write([]byte{byte(s.At(i).L)})
+		_n, err = w.w.Write([]byte{byte(s.At(start + i).L)})
 		if n += _n; err != nil {
 			return n, err
 		}
